@@ -24,6 +24,7 @@ type C14Case struct {
 	TC     gen.TextCase `json:"tc"`
 	Why    string       `json:"why,omitempty"` // must-error: what is wrong with the text
 	Shared bool         `json:"shared"`        // use the long-lived parser instance (else FromString*)
+	Via    string       `json:"via,omitempty"` // shared | fromstring | plain | must ("" = as Shared says)
 }
 
 var sharedParser = parser.New()
@@ -33,6 +34,9 @@ type parsed struct {
 	rules    []biscuit.Rule
 	checks   []biscuit.Check
 	policies []biscuit.Policy
+	// the parsed value as returned, when the entry point returns a whole block / authorizer
+	block      *biscuit.ParsedBlock
+	authorizer *biscuit.ParsedAuthorizer
 }
 
 func toParams(ps map[string]m.Term) parser.ParametersMap {
@@ -47,20 +51,44 @@ func toParams(ps map[string]m.Term) parser.ParametersMap {
 }
 
 // parseText calls the entry point named by the case; a panic is returned as pan.
+// Via selects the family of entry points: the long-lived parser instance, the
+// FromString*WithParams functions, the FromString* functions without a parameter map
+// (only when the case has no parameters) or the Must() parser, which by contract
+// panics with the error instead of returning it.
 func parseText(c C14Case) (p parsed, err error, pan string) {
+	via := c.Via
+	if via == "" {
+		via = "fromstring"
+		if c.Shared {
+			via = "shared"
+		}
+	}
+	if via == "plain" && len(c.TC.Params) > 0 {
+		via = "fromstring"
+	}
 	defer func() {
 		if r := recover(); r != nil {
+			if e, ok := r.(error); ok && via == "must" {
+				p, err = parsed{}, e // the documented way a Must parser reports an error
+				return
+			}
 			pan = fmt.Sprintf("%v\n%s", r, trimStack(debug.Stack()))
 		}
 	}()
 	params := toParams(c.TC.Params)
 	text := c.TC.Text
+	must := sharedParser.Must()
 	switch c.TC.Entry {
 	case "fact":
 		var f biscuit.Fact
-		if c.Shared {
+		switch via {
+		case "shared":
 			f, err = sharedParser.Fact(text, params)
-		} else {
+		case "plain":
+			f, err = parser.FromStringFact(text)
+		case "must":
+			f = must.Fact(text, params)
+		default:
 			f, err = parser.FromStringFactWithParams(text, params)
 		}
 		if err == nil {
@@ -68,9 +96,14 @@ func parseText(c C14Case) (p parsed, err error, pan string) {
 		}
 	case "rule":
 		var r biscuit.Rule
-		if c.Shared {
+		switch via {
+		case "shared":
 			r, err = sharedParser.Rule(text, params)
-		} else {
+		case "plain":
+			r, err = parser.FromStringRule(text)
+		case "must":
+			r = must.Rule(text, params)
+		default:
 			r, err = parser.FromStringRuleWithParams(text, params)
 		}
 		if err == nil {
@@ -78,9 +111,14 @@ func parseText(c C14Case) (p parsed, err error, pan string) {
 		}
 	case "check":
 		var ch biscuit.Check
-		if c.Shared {
+		switch via {
+		case "shared":
 			ch, err = sharedParser.Check(text, params)
-		} else {
+		case "plain":
+			ch, err = parser.FromStringCheck(text)
+		case "must":
+			ch = must.Check(text, params)
+		default:
 			ch, err = parser.FromStringCheckWithParams(text, params)
 		}
 		if err == nil {
@@ -88,9 +126,14 @@ func parseText(c C14Case) (p parsed, err error, pan string) {
 		}
 	case "policy":
 		var po biscuit.Policy
-		if c.Shared {
+		switch via {
+		case "shared":
 			po, err = sharedParser.Policy(text, params)
-		} else {
+		case "plain":
+			po, err = parser.FromStringPolicy(text)
+		case "must":
+			po = must.Policy(text, params)
+		default:
 			po, err = parser.FromStringPolicyWithParams(text, params)
 		}
 		if err == nil {
@@ -98,23 +141,35 @@ func parseText(c C14Case) (p parsed, err error, pan string) {
 		}
 	case "block":
 		var b biscuit.ParsedBlock
-		if c.Shared {
+		switch via {
+		case "shared":
 			b, err = sharedParser.Block(text, params)
-		} else {
+		case "plain":
+			b, err = parser.FromStringBlock(text)
+		case "must":
+			b = must.Block(text, params)
+		default:
 			b, err = parser.FromStringBlockWithParams(text, params)
 		}
 		if err == nil {
 			p.facts, p.rules, p.checks = b.Facts, b.Rules, b.Checks
+			p.block = &b
 		}
 	default:
 		var a biscuit.ParsedAuthorizer
-		if c.Shared {
+		switch via {
+		case "shared":
 			a, err = sharedParser.Authorizer(text, params)
-		} else {
+		case "plain":
+			a, err = parser.FromStringAuthorizer(text)
+		case "must":
+			a = must.Authorizer(text, params)
+		default:
 			a, err = parser.FromStringAuthorizerWithParams(text, params)
 		}
 		if err == nil {
 			p.facts, p.rules, p.checks, p.policies = a.Block.Facts, a.Block.Rules, a.Block.Checks, a.Policies
+			p.authorizer = &a
 		}
 	}
 	return p, err, ""
@@ -174,6 +229,36 @@ func useParsed(p parsed) (pan string) {
 	_, _ = a.SerializePolicies()
 	_ = a.Authorize()
 	_ = a.PrintWorld()
+	// the same content handed over as one parsed value
+	pb := biscuit.ParsedBlock{Facts: p.facts, Rules: p.rules, Checks: p.checks}
+	if p.block != nil {
+		pb = *p.block
+	}
+	pa := biscuit.ParsedAuthorizer{Block: pb, Policies: p.policies}
+	if p.authorizer != nil {
+		pa = *p.authorizer
+	}
+	b2 := biscuit.NewBuilder(priv, biscuit.WithRNG(bridge.NewDetRand(1)))
+	_ = b2.AddBlock(pb)
+	if tok2, err := b2.Build(); err == nil && tok2 != nil {
+		bb2 := tok2.CreateBlock()
+		_ = bb2.AddBlock(pb)
+		_ = bb2.Build()
+		_ = tok2.String()
+	}
+	for _, whole := range []bool{true, false} {
+		a2, err := tok.AuthorizerFor(biscuit.WithSingularRootPublicKey(pub), c10WorldOpts())
+		if err != nil {
+			return ""
+		}
+		if whole {
+			a2.AddAuthorizer(pa)
+		} else {
+			a2.AddBlock(pb)
+		}
+		_ = a2.Authorize()
+		_ = a2.PrintWorld()
+	}
 	return ""
 }
 
@@ -317,6 +402,9 @@ func checkC14(c C14Case, rec *obs.Recorder) *obs.Violation {
 	p, err, pan := parseText(c)
 	rec.Label("class:" + c.Class)
 	rec.Label("entry:" + c.TC.Entry)
+	if c.Via != "" {
+		rec.Label("via:" + c.Via)
+	}
 	show := fmt.Sprintf("%s text %q", c.TC.Entry, c.TC.Text)
 	if len(c.TC.Params) > 0 {
 		show += fmt.Sprintf(" with parameters %v", paramText(c.TC.Params))
@@ -481,6 +569,7 @@ func corrupt(t *rapid.T, text string) string {
 
 func drawC14(t *rapid.T) C14Case {
 	c := C14Case{Shared: rapid.IntRange(0, 5).Draw(t, "shared") > 0}
+	c.Via = rapid.SampledFrom([]string{"", "", "", "plain", "must", "must"}).Draw(t, "via")
 	switch k := rapid.IntRange(0, 9).Draw(t, "class"); {
 	case k <= 5:
 		c.Class = "grammar"
@@ -504,7 +593,7 @@ func drawC14(t *rapid.T) C14Case {
 func TestC14(t *testing.T) {
 	rec := obs.New("C14")
 	defer rec.Flush(true)
-	rec.SetExtra("rule", "rapid, three classes. grammar (60 %): texts generated from the documented grammar for the six entry points (fact, rule, check, policy, block, authorizer) with random layout (blanks, tabs, newlines between any two tokens unless they would merge), expressions generated by precedence level with explicit parentheses (nesting <= 5), method calls, 'or' alternatives, parameters of every term type bound in a parameter map, sets, dates with Z / numeric offsets / fractions, upper- and lower-case hex, leading comments; oracle = the structure computed by the generator (own postfix emission, grouping markers, dates as instants) must equal the parsed structure exactly. must-error (20 %): unbound parameter, zone-less or month-13 date, odd-length or non-hex byte literal, variable inside a set (each in a predicate and inside an expression), chained comparison / equality, in every entry point; oracle = an error is returned. robust (20 %): arbitrary strings and token-level corruptions (delete, duplicate, swap, insert punctuation, truncate) of grammatical texts; oracle = no panic in any parse function, and every successfully parsed element can be added to a Builder, a BlockBuilder and an authorizer, the token built and authorized, without panic. Non-trivial (grammar) = the text has an expression with operators of two precedence levels, a method call, a parameter or a set; distinct by text.")
+	rec.SetExtra("rule", "rapid, three classes. grammar (60 %): texts generated from the documented grammar for the six entry points (fact, rule, check, policy, block, authorizer), each reached through the long-lived Parser value, FromString*WithParams, FromString* (no parameter map) or the Must() parser (whose documented panic-with-error counts as the error) with random layout (blanks, tabs, newlines between any two tokens unless they would merge), expressions generated by precedence level with explicit parentheses (nesting <= 5), method calls, 'or' alternatives, parameters of every term type bound in a parameter map, sets, dates with Z / numeric offsets / fractions, upper- and lower-case hex, leading comments; oracle = the structure computed by the generator (own postfix emission, grouping markers, dates as instants) must equal the parsed structure exactly. must-error (20 %): unbound parameter, zone-less or month-13 date, odd-length or non-hex byte literal, variable inside a set (each in a predicate and inside an expression), chained comparison / equality, in every entry point; oracle = an error is returned. robust (20 %): arbitrary strings and token-level corruptions (delete, duplicate, swap, insert punctuation, truncate) of grammatical texts; oracle = no panic in any parse function, and every successfully parsed element can be added to a Builder, a BlockBuilder and an authorizer (element by element and as one ParsedBlock / ParsedAuthorizer value through AddBlock / AddAuthorizer), the token built and authorized, without panic. Non-trivial (grammar) = the text has an expression with operators of two precedence levels, a method call, a parameter or a set; distinct by text.")
 	rec.SetExtra("assumptions", []string{"identifiers follow the lexer's rule and avoid the prefixes the lexer reserves (prefix, suffix, matches, length, contains, true, false, hex:); integers are written in canonical decimal; strings contain no quote or backslash", "time.Parse(RFC3339) is a shared primitive"})
 	harness.RunWith(t, harness.Spec[C14Case]{ID: "C14", Draw: drawC14, Check: checkC14}, rec)
 }
